@@ -115,6 +115,9 @@ func Random(r *rand.Rand, local bool) Scn {
 	for i, sp := range s.Sets {
 		for _, ph := range sp.Phases {
 			for _, p := range ph.Objects {
+				if ph.Class != "" && r.Intn(3) != 0 {
+					continue // objects of delegated phases mostly start absent (they are created by the phase controller)
+				}
 				ns := p.NS
 				if ns == "" {
 					ns = s.ns()
@@ -133,6 +136,9 @@ func Random(r *rand.Rand, local bool) Scn {
 					so.Owners = []verifphase.Ref{{Group: "apps", Kind: "Deployment", Name: "dep", UID: "u-dep", Ctrl: true}}
 				case 1: // nobody
 				default: // controlled by one of the revisions
+					if ph.Class != "" {
+						break // never directly by an ObjectSet: a delegated phase's objects belong to the phase object
+					}
 					j := r.Intn(len(s.Sets))
 					so.Owners = []verifphase.Ref{s.setRef(j, true)}
 					so.Rev = fmt.Sprint(j + 1)
